@@ -107,7 +107,7 @@ def check_c19(chk, args):
             after = snapshot(values[i])
             same = (after == before)
             ev.append({'v': i + 1, 'text': texts.get(text, -1), 'proj': C.projection(), 'same': same,
-                       'raw': None if text in texts else text[:300]})
+                       'raw': text[:300] if texts.get(text, -1) != base[i]['tid'] else None})
             if not same:
                 values[i] = C.FACTORIES[i][1]()
                 snaps[i] = snapshot(values[i])
